@@ -2994,6 +2994,19 @@ func ruleMapArgMade(c *Ctx) {
 			}
 		}
 	}
+	// members created on demand: some branch in the repository tests them against nil
+	lazy := map[*types.Var]bool{}
+	for _, fn := range p.Repo {
+		for _, b := range fn.Blocks {
+			if i := blockIf(b); i != nil {
+				if x, _, ok := nilTest(i, true); ok {
+					if f, _ := fieldLoad(x); f != nil {
+						lazy[f] = true
+					}
+				}
+			}
+		}
+	}
 	n := 0
 	for _, fn := range p.Repo {
 		if !inScopePkgs(fn, "server", "rescache", "codec", "rpc") {
@@ -3013,8 +3026,8 @@ func ruleMapArgMade(c *Ctx) {
 			if f == nil {
 				continue // a local made here, or a parameter: the caller's obligation
 			}
-			if len(p.stores[f]) == 0 {
-				continue // not a member the repository creates on demand (decoded content: presence is its kind)
+			if len(p.stores[f]) == 0 || !lazy[f] {
+				continue // not a member the repository creates on demand (no branch tests it against nil)
 			}
 			n++
 			c.inst(1)
@@ -3117,12 +3130,29 @@ func ruleRespondOnce(c *Ctx) {
 		if !responds[fn] {
 			continue
 		}
+		if fn.Parent() == nil && !p.onReferenceTree(fn) {
+			continue // walked through from its callers
+		}
 		n++
 		c.inst(1)
 		sp := &Spec{NoHelpers: true, NoCombs: true, EdgeLimit: 1}
+		// a helper that did not exist on the reference tree is part of the function it was extracted from: it is
+		// walked through (it may answer on some of its paths only, and tell its caller)
+		extracted := func(f *ssa.Function) bool {
+			return f != nil && p.isRepoFn(f) && f.Parent() == nil && !p.onReferenceTree(f) && responds[f]
+		}
+		sp.Inline = func(t *Tracer, fr *Frame, cl ssa.CallInstruction, f *ssa.Function) bool {
+			if _, isGo := cl.(*ssa.Go); isGo {
+				return false
+			}
+			return extracted(f)
+		}
 		sp.Classify = func(t *Tracer, fr *Frame, in ssa.Instruction) []Ev {
 			call, ok := in.(ssa.CallInstruction)
-			if !ok || fr != t.RootFr {
+			if !ok || (fr != t.RootFr && !extracted(fr.Fn)) {
+				return nil
+			}
+			if extracted(call.Common().StaticCallee()) {
 				return nil
 			}
 			if _, isDefer := call.(*ssa.Defer); isDefer {
@@ -3231,6 +3261,10 @@ func ruleDirectStatusFirst(c *Ctx) {
 				}
 				n++
 				c.inst(1)
+				if p.guardedBy(call, notDirect) == nil && handedToGuardedCaller(p, g, notDirect) {
+					c.ok(fnName(g), "the grants of an HTTP access answer are evaluated only if its meta status is not the response ("+calleeName(call.Common())+")", p.InstrPos(call), "the test is handed as a function to a helper that calls it behind IsDirectResponseStatus() == false")
+					continue
+				}
 				c.check(p.guardedBy(call, notDirect) != nil, fnName(g), "the grants of an HTTP access answer are evaluated only if its meta status is not the response ("+calleeName(call.Common())+")", p.InstrPos(call), "behind IsDirectResponseStatus() == false",
 					"the access answer's grants are evaluated although its meta status may be a direct response (3xx–5xx): the request goes on and is answered with the resource request's outcome, not with the status")
 			}
@@ -3254,17 +3288,18 @@ type flipRow struct {
 	fn     string
 	flips  []int64
 	status string // "param", "len(param)" or the field read
+	also   []int64 // further borders that may, but need not, be tested
 }
 
 var lengthTable = []flipRow{
-	{"codec.IsValidRIDPart", []int64{1}, "len(param)"},
+	{"codec.IsValidRIDPart", []int64{1}, "len(param)", nil},
 }
 
 var statusTable = []flipRow{
-	{"server.httpStatusResponse", []int64{300, 400}, "param"},
-	{"(*codec.Meta).IsDirectResponseStatus", []int64{300, 600}, "codec.Meta.Status"},
-	{"(*codec.Meta).IsValidStatus", []int64{300, 600}, "codec.Meta.Status"},
-	{"server.statusError", []int64{400, 500, 600}, "param"},
+	{"server.httpStatusResponse", []int64{300, 400}, "param", nil},
+	{"(*codec.Meta).IsDirectResponseStatus", []int64{300, 600}, "codec.Meta.Status", nil},
+	{"(*codec.Meta).IsValidStatus", []int64{300, 600}, "codec.Meta.Status", nil},
+	{"server.statusError", []int64{400, 500}, "param", []int64{600}},
 }
 
 func ruleStatusClasses(c *Ctx) { ruleFlipPoints(statusTable, "a meta status is sorted into its class at the class borders", "a status on the border is answered as a member of the neighbouring class")(c) }
@@ -3351,8 +3386,18 @@ func flipPoints(c *Ctx, table []flipRow, what, consequence string) {
 					continue
 				}
 				x, op, k, ok := cmpConst(b)
-				if !ok || !isStatus(x) {
+				if !ok {
 					continue
+				}
+				if !isStatus(x) {
+					// in a helper extracted from the function the status is the integer parameter it was handed
+					prm, isP := stripConv(x).(*ssa.Parameter)
+					if !isP || g == fn || g.Parent() != nil {
+						continue
+					}
+					if bt, isB := prm.Type().Underlying().(*types.Basic); !isB || bt.Info()&types.IsInteger == 0 {
+						continue
+					}
 				}
 				prev, _ := evalIntCmp(op, 0, k)
 				for v := int64(1); v < 700; v++ {
@@ -3376,7 +3421,7 @@ func flipPoints(c *Ctx, table []flipRow, what, consequence string) {
 		for k := range flips {
 			got = append(got, fmt.Sprint(k))
 			isWant := false
-			for _, w := range row.flips {
+			for _, w := range append(append([]int64{}, row.flips...), row.also...) {
 				if w == k {
 					isWant = true
 				}
@@ -3936,4 +3981,50 @@ func ruleDescendingComplete(c *Ctx) {
 	if n == 0 {
 		c.note("no descending walk over a sequence")
 	}
+}
+
+// handedToGuardedCaller: the closure g is handed as an argument to a repository
+// function that calls that parameter only behind the guard.
+func handedToGuardedCaller(p *Prog, g *ssa.Function, pred guardPred) bool {
+	mc := p.parent[g]
+	if mc == nil || mc.Referrers() == nil {
+		return false
+	}
+	found := false
+	for _, r := range *mc.Referrers() {
+		call, ok := r.(ssa.CallInstruction)
+		if !ok {
+			return false
+		}
+		h := call.Common().StaticCallee()
+		if h == nil || !p.isRepoFn(h) {
+			return false
+		}
+		idx := -1
+		for i, a := range callArgs(call.Common()) {
+			if stripConv(a) == ssa.Value(mc) {
+				idx = i
+			}
+		}
+		if idx < 0 || idx >= len(h.Params) {
+			return false
+		}
+		prm := h.Params[idx]
+		n := 0
+		for _, in := range instrsOf(h) {
+			dc, ok := in.(*ssa.Call)
+			if !ok || dc.Call.Value != ssa.Value(prm) {
+				continue
+			}
+			n++
+			if p.guardedBy(dc, pred) == nil {
+				return false
+			}
+		}
+		if n == 0 {
+			return false
+		}
+		found = true
+	}
+	return found
 }
